@@ -87,6 +87,20 @@ def matrix_case(runner, r, oc, nconf, big=False, support_copy=False):
                 os.makedirs(os.path.join(work, "x"), exist_ok=True)
             else:
                 outdir, cwd = "out//", work
+            # the pre-existing tree checked out with the other end-of-line convention: the regenerated tree is the same
+            # (the generator reads with universal newlines and writes '\n'; see C01's finding crlf-line-endings-normalised)
+            if i % 3 == 2 and not any(b"\r" in d for d in e2e.snapshot(work).values()):
+                for root, _, fs in os.walk(work):
+                    for f_ in fs:
+                        p_ = os.path.join(root, f_)
+                        with open(p_, "rb") as fh:
+                            data = fh.read()
+                        with open(p_, "wb") as fh:
+                            fh.write(data.replace(b"\n", b"\r\n"))
+                oc.stat("conf_tree_saved_with_crlf")
+                crlf_before = e2e.snapshot(real)
+            else:
+                crlf_before = None
             age = [None, "old", "future"][(i + 1) % 3] if stale else r.choice([None, "old", "future"])
             if age:
                 stamp = 978307200 if age == "old" else time.time() + 3600
@@ -103,6 +117,13 @@ def matrix_case(runner, r, oc, nconf, big=False, support_copy=False):
                 oc.corr_failures.append(dict(what="worker failed: " + err, cfg=cfg))
                 return
             tree = e2e.snapshot(real)
+            if crlf_before is not None:
+                # files the run does not report (orphans of an earlier model, old LostCode files) are input, not output:
+                # they keep the line endings this configuration gave them
+                reported = {os.path.relpath(os.path.normpath(os.path.join(cwd, outdir, x)), real) for x in (ret or [])}
+                for rel, data in list(tree.items()):
+                    if rel not in reported and crlf_before.get(rel) == data:
+                        tree[rel] = data.replace(b"\r\n", b"\n")
             extra = [p for p in e2e.snapshot(work) if not p.startswith("out" + os.sep)]
             results.append((dict(cfg=cfg, hashseed=hs, tz=tz), tree, norm_ret(ret, real), extra))
             oc.stat("conf_outdir_kind_%d" % k)
@@ -158,7 +179,7 @@ def run(tier):
     proof = proof_status(PROP, thorough)
     oc = Outcome(PROP)
     oc.rule = ("matrix: a directory with user code is regenerated (60% with a mutated model, so LostCode occurs) in fresh interpreters under "
-               "PYTHONHASHSEED in {0,1,2,3,4242,random} x TZ x fake clock x shuffled os.walk listings x 6 spellings of the output directory/cwd x age of the pre-existing tree (2001 / as copied / one hour ahead); "
+               "PYTHONHASHSEED in {0,1,2,3,4242,random} x TZ x fake clock x shuffled os.walk listings x 6 spellings of the output directory/cwd x age of the pre-existing tree (2001 / as copied / one hour ahead) x its end-of-line convention (LF / CRLF); "
                "C++ and protocol cases mostly with kojen's default copy of the support sources on, stale support files of an earlier release planted in the pre-existing tree; "
                "oracle: all trees byte-identical, same set of reported files, nothing outside the output directory; "
                "path: Basic/Path functions vs os.path on generated paths; non-trivial = every matrix case (>= 4 configurations compared)")
